@@ -59,3 +59,37 @@ CHECKS["C20"] = dict(
     assumptions=["addresses have equal length >= 5 bytes for proximity (the functions inspect 4 / 5 bytes)",
                  "big-endian numerals of equal length compare as integers at their first difference (checked by TLC on 16-bit strings)"],
 )
+
+# ------------------------------------------------------------------------------------ C21
+CHECKS["C21"] = dict(
+    modules=["pslice"], level="model_checking", driver="pslicedrv", race="always",
+    design_ref="5 (C21), 6 (data races)",
+    technique="TLA+ model of the proximity-indexed peer set checked by TLC; TLC-generated histories (edges of the state graph + random walks) "
+              "run on pslice.PSlice; recorded trace judged by the TLA+ trace spec; the concurrent iterate||update operation runs in a child "
+              "process of the -race driver and the race detector's report is a logged observation",
+    level_text="TLC exhausts the PSlice model (6 peers, capped last bin) and generates one history per (state, operation) edge - single/batch "
+               "Add with duplicates, Remove, Exists, BinSize, BinPeers, Length, ShallowestEmpty, EachBin/EachBinRev with 11 callback scripts, "
+               "iterations whose callback updates the slice, free-running iterate||update - plus random walks with maxBins 4 and 32; every "
+               "result and the full BinPeers projection are judged by PSliceTrace.tla",
+    level_note="data-race clause: TLA+ cannot decide it; the Go race detector observes the concurrent operation (DESIGN.md section 6) and "
+               "its report is judged as clause no_data_race. Order inside a bin is predicted but never a verdict. Trusted: TLC, the driver's "
+               "peer<->address map and projection, the race detector.",
+    design=[dict(spec="MCPSlice.tla", cfg="MCPSlice.cfg", cfg_thorough="MCPSlice_thorough.cfg", workers=8, timeout=1200)],
+    gen=dict(
+        quick=[dict(mode="edges", spec="PSliceGen.tla", cfg="PSliceGenEdgesQuick.cfg", depth=6, max=1000, name="edges"),
+               dict(mode="sim", spec="PSliceGen.tla", cfg="PSliceGenSim.cfg", depth=12, num=6, max=600, name="walks"),
+               dict(mode="edges", spec="PSliceGen.tla", cfg="PSliceGenConcEdges.cfg", depth=5, max=100, name="conc-edges")],
+        thorough=[dict(mode="edges", spec="PSliceGen.tla", cfg="PSliceGenEdges.cfg", depth=6, name="edges"),
+                  dict(mode="sim", spec="PSliceGen.tla", cfg="PSliceGenSim.cfg", depth=30, num=60, max=8000, name="walks"),
+                  dict(mode="edges", spec="PSliceGen.tla", cfg="PSliceGenConcEdges.cfg", depth=5, max=1000, name="conc-edges"),
+                  dict(mode="sim", spec="PSliceGen.tla", cfg="PSliceGenConcSim.cfg", depth=10, num=40, max=300, salt=3, name="conc-walks")]),
+    judge=dict(spec="PSliceTrace.tla", cfg="PSliceTrace.cfg"),
+    corrupt=corrupt_field("exists", "res", lambda e: not e["res"]),
+    nontrivial=lambda s: any(o["op"] in ("add", "remove", "iterupd", "conc") for o in s["ops"]) and len(s["ops"]) > 1,
+    rule="TLC-generated histories over 6 peers (two bins with two peers, proximity above the last bin included): edges mode = one shortest "
+         "history per (model state, operation) pair of the complete state graph; walks = -simulate with maxBins 4 and 32; conc = histories "
+         "ending in a free-running iterate||update; distinct = distinct (maxBins, operation sequence); non-trivial = contains a mutation",
+    exhaustive=dict(quick=False, thorough=False),
+    assumptions=["peers are 32-byte addresses built to share exactly po leading bits with the base",
+                 "the race detector reports a race only if both accesses happen in the run (60 update rounds against a free-running reader)"],
+)
